@@ -14,7 +14,7 @@ bound = {
  "C10": "every node of 4 scope descriptions and 1 plugin description x 11 mutations; 10 grammar-free shapes",
  "C11": "CallStep over 13 representations x 3 step ids x 3 output ids x 3 data kinds; signals; 4 arrival orders x 4 step endings; 3-goroutine race; no initializer",
  "C12": "9 schema/argument families; maps <= 3 entries per order exploration; 3 x 2 call histories",
- "C13": "12 first-use operation families, Eraser lockset per shared location",
+ "C13": "16 first-use operation families, Eraser lockset per shared location",
  "C14": "2-level scope tree, 3 references (inner, outer, non-root), 4 placements, 4 application orders",
  "C15": "16 nil-combinations x 4 kinds, 12 kinds reflexive, 12 x 12 kind pairs, enums <= 3, objects <= 3 properties",
  "C16": "quantities < 2^12 over 4 unit sets, 4 windows of 16 above 2^53, counts <= 5 digits, PB+TB running sum, metacharacter names, 9 malformed shapes",
